@@ -638,6 +638,10 @@ def r7(ctx):
                         k = 'element'
                     if k:
                         kinds.setdefault(s.targets[0].id, []).append(k)
+                # a name the method itself walks with a for loop is a sequence of records (whatever produced it: a helper's result, an unpacked pair)
+                for l in walk_no_nested(f):
+                    if isinstance(l, ast.For) and isinstance(l.iter, ast.Name):
+                        kinds.setdefault(l.iter.id, []).append('list')
                 for r in [x for x in walk_no_nested(f) if isinstance(x, ast.Return) and x.value is not None]:
                     n += 1
                     v = r.value
@@ -647,6 +651,10 @@ def r7(ctx):
                         ks = set(kinds.get(v.id, []))
                         ok = 'element' not in ks and bool(ks - {'none'})
                         why = f'`{v.id}` is bound to {sorted(ks)}'
+                        if not ks:
+                            # nothing known about the name (the result of a call this rule does not follow): no witness of a single record either
+                            ctx.emit('C02-R7', True, rel, r, f'{q}: returns `{v.id}`, the result of a call (shape not followed)', key=f'{q}:return-shape:{src(v)[:30]}', nontrivial=False)
+                            continue
                     else:
                         ok, why = False, f'`{src(v)[:40]}` of unknown shape'
                     ctx.emit('C02-R7', ok, rel, r, f'{q}: returns {why}' + ('' if ok else ' -> the loader iterates the result as a list of records'), key=f'{q}:return-shape:{src(v)[:30]}', nontrivial=False,
